@@ -219,6 +219,31 @@ def check(run, model, tier):
                        'instance. A mapping finds keys by hash/==, not identity: two instances that compare equal (a class with value-based __eq__/__hash__) share one '
                        'slot, so assigning on one changes what the other reads' % norm(t))
             if ok:
+                # may-depend is not enough: every definition of the container that can reach the store must be the instance's own; one that comes from the descriptor
+                # (a namespace remembered on self by an earlier call) belongs to whichever instance that call was for
+                def descriptor_defs(e, depth=4):
+                    out = []
+                    while isinstance(e, (ast.Attribute, ast.Subscript)):
+                        if isinstance(e, ast.Attribute) and isinstance(e.value, ast.Name) and e.value.id == selfn:
+                            out.append(e)
+                        e = e.value
+                    if isinstance(e, ast.Name) and e.id not in (selfn, inst) and depth > 0:
+                        for d in sdefs.get(e.id, []):
+                            d = d[1] if isinstance(d, tuple) else d
+                            if isinstance(d, ast.AST):
+                                if isinstance(d, ast.Attribute) and isinstance(d.value, ast.Name) and d.value.id == selfn:
+                                    out.append(d)
+                                else:
+                                    out += descriptor_defs(d, depth - 1)
+                    return out
+                cont = t.value if isinstance(t, (ast.Subscript, ast.Attribute)) else t
+                dd = [d for d in descriptor_defs(cont) if not (isinstance(t, ast.Subscript) and d is t.slice)]
+                if dd:
+                    ok = False
+                    why = ('__set__ stores the value in %s, and on some path that container is %s - state of the descriptor, which is one object for all instances of the class: the '
+                           'value lands in whichever instance the descriptor last remembered (`a.x += b.x` writes into b; a read on one instance followed by an assignment on '
+                           'another writes into the first)' % (norm(t), norm(dd[0])))
+            if ok:
                 nd = namespace_depth(t, inst, sdefs)
                 if nd is not None and nd >= 1:
                     ok = False
